@@ -1,6 +1,7 @@
 (* C11 -- sockets are safe for concurrent use: the lock discipline part.  Statements only.
    The per-run obligation C11_gen_guarded instantiates these on the skeleton regenerated from the current source. *)
 From MV Require Import Model.RaceCfg Proofs.RaceSound.
+From MV Require Import Model.LockOrder Proofs.LockOrderProofs.
 Open Scope N_scope.
 
 (* In every concrete execution -- every path of every function, through every chain of calls and goroutine starts --
@@ -53,3 +54,14 @@ Definition ex_good : list rfunc :=
        [ {| rbody := [RLock 0; RAccess false 0; RUnlock 0]; rsuccs := [0%nat]; rreturns := false |} ] |} ].
 Example C11_ex : guarded_ok 1 1 ex_bad [] = false /\ guarded_ok 1 1 ex_good [] = true.
 Proof. vm_compute. auto. Qed.
+
+(* ---- never deadlock: lock ordering.  On the lock skeleton regenerated from the source, order_edges lists every pair
+   (c1, c2) of distinct mutex classes such that some function acquires c2 -- itself or through a function it calls,
+   transitively -- at a point where c1 is certainly held; the generated obligation C11_gen_lock_order evaluates
+   order_ok on it.  What that establishes: there is no cycle of such nested acquisitions (a simple cycle over ncl
+   classes has at most ncl edges), hence no set of goroutines each holding one class of the cycle and waiting for
+   the next. ---- *)
+Theorem C11_lock_order_no_cycle : forall ncl edges, order_ok ncl edges = true ->
+  forall a n, walk (strict_edges edges) a a n -> (n <= S ncl)%nat -> False.
+Proof. exact order_ok_no_cycle. Qed.
+Print Assumptions C11_lock_order_no_cycle.
